@@ -32,7 +32,7 @@ RULE = ("per run one BEC2 file: non-empty ordered subset of {customer-key, ECC(s
 REAL = ["bec2format.bec2file (Bec2File, auth blocks, encryptors)", "bec2format.bf3file", "bec2format.crypto registry",
         "register_crypto_plugin (AES adapter, ECC proxies)", "pyaes", "ecdsa"]
 STUBS = ["medium: SimFS", "RNG: SimRng behind register_random_bytes and os.urandom shims"]
-PROBES = ["session-key-trailing-zero", "crc-low-byte-zero", "crc-high-byte-zero", "key-drawn-from-rng",
+PROBES = ["keystore-arm", "writer-keystore", "session-key-trailing-zero", "crc-low-byte-zero", "crc-high-byte-zero", "key-drawn-from-rng",
           "three-blocks", "subset-leaves-block-opaque", "wrong-key-arm-raised", "wrong-key-arm-returned",
           "encrypted-config", "default-recipient-ecc", "customer-key-present"]
 ASSUMPTIONS = ["customer key position 0 (the only position that leaves the wrapped session key intact)"]
@@ -42,6 +42,7 @@ def gen(st, tier):
     w = st["workload"]
     spec = files.file_spec(w, kind="bec2", p_enc=0.2, max_len=200, p_config=0.5)
     spec["wrong"] = w.randrange(8)
+    spec["decoys"] = w.random() < 0.35
     return spec
 
 
@@ -103,6 +104,8 @@ def run(case):
                      % ([b["t"] for b in case["blocks"]], type(e).__name__, e))
             return out
         _classify(out, case, w)
+        if case.get("decoys") and any(b["t"] == "ecc" for b in case["blocks"]):
+            out.probes["writer-keystore"] += 1
         head, binary = files.binary_of(w.durable)
         hdr, body_off = prov.parse_header(binary)
         out.ev("written", len(binary), [t for t, _ in hdr], len(w.rng.draws))
@@ -162,6 +165,33 @@ def run(case):
                                  "block %d (%s) without decryptor came back as %r, expected opaque bytes %s"
                                  % (i, bspec["t"], blk, val.hex()), narrow)
             out.ev("read", sub, "equal")
+        # key-store arm: decryptors for the other key selectors (unrelated keys) listed before the
+        # matching ones - "given matching decryptors" still holds
+        eccs = [b for b in case["blocks"] if b["t"] == "ecc"]
+        if able and eccs and case.get("only_subset") is None:
+            nev += 1
+            out.probes["keystore-arm"] += 1
+            fs.restart()
+            decs = [d for b in eccs for _, d in prov.decoys_for(env, b["sel"])] + [w.decryptors[j] for j in able]
+            try:
+                got = files.read_file("bec2", fs, env, name, "path", True, None, decs)
+            except SimCrash:
+                raise
+            except Exception as e:
+                out.fail("C02.read-raises", "keystore-%s@%s" % (type(e).__name__, exc_site(e)),
+                         "reading with a key store (decryptors for other selectors listed first) raised %s: %s"
+                         % (type(e).__name__, e), dict(case))
+            else:
+                diff = files.compare_read("bec2", w, got, with_key=True)
+                if diff:
+                    out.fail("C02.read-differs", "keystore-" + diff[0], "key-store read: " + diff[1], dict(case))
+                else:
+                    for i, (bspec, blk) in enumerate(zip(case["blocks"], got.auth_blocks.values())):
+                        if i in able:
+                            m = _block_mismatch(bspec, blk, bf)
+                            if m:
+                                out.fail("C02.blocks-differ", "keystore-" + bspec["t"], "key-store read: " + m, dict(case))
+                out.ev("keystore", "ok")
         # wrong-key arm: a decryptor of the right kind with a wrong key next to the right ones
         if able and case.get("only_subset") is None:
             nev += 1
